@@ -149,10 +149,24 @@ def _solo_fn(iface, app, req, mask):
     return run
 
 
-def check_preempted(ctx, pre, iface, app, req_a, req_b, where, case, mask=VOLATILE, max_points=60):
-    """request B served by another thread between two library lines of request A, for a spread of switch points"""
-    run_a, run_b = _solo_fn(iface, app, req_a, mask), _solo_fn(iface, app, req_b, mask)
-    alone_a, alone_b = run_a(), run_b()
+def check_preempted(ctx, pre, iface, app, req_a, req_b, where, case, mask=VOLATILE, max_points=60, fresh=None):
+    """request B served by another thread between two library lines of request A, for a spread of switch points.
+    fresh: callable -> a NEW application object for every run (both threads then meet an object that has never been called)"""
+    if fresh is not None:
+        cur = {}
+
+        def run_a():
+            cur["app"] = fresh()
+            return _solo_fn(iface, cur["app"], req_a, mask)()
+
+        def run_b():
+            return _solo_fn(iface, cur.get("app") or fresh(), req_b, mask)()
+        alone_a = run_a()
+        cur.clear()
+        alone_b = run_b()
+    else:
+        run_a, run_b = _solo_fn(iface, app, req_a, mask), _solo_fn(iface, app, req_b, mask)
+        alone_a, alone_b = run_a(), run_b()
     if pre.run(run_a) != alone_a:
         ctx.count("pre-emption:request-not-deterministic(skipped)")
         return
